@@ -295,6 +295,45 @@ def explore(fn, init, transfer=None, evalcond=None, refine=None, max_states=2000
     return witnesses, {'states': len(parent), 'edges': nedges}
 
 
+def effect_sequences(prog, fn, event_of, param_values=None, follow=None, depth=0):
+    """set of event tuples over all paths of fn.  event_of(f, nid) -> event or None.  Calls to repository functions accepted by follow(g)
+    (default: defined in the same file) are inlined up to depth 3, with constant arguments bound to the callee's parameters; a callee whose
+    paths disagree contributes the event '?'."""
+    pv = param_values or {}
+
+    def custom(f, nid, st):
+        n = f.nodes[nid]
+        if f.id == fn.id and n['k'] == 'var' and n.get('vk') == 'param' and n.get('pidx') in pv:
+            return (pv[n['pidx']],)
+        return None
+    ev = Evaluator(fn, {}, custom=custom, prog=prog)
+
+    def transfer(f, nid, st):
+        e = event_of(f, nid)
+        if e is not None:
+            return st + (e,)
+        n = f.nodes[nid]
+        if n['k'] == 'call' and not n.get('op') and depth < 3:
+            for g in prog.callee_fns(f, n):
+                if g.entry is None or g.id == f.id or not (follow(g) if follow else g.file == f.file):
+                    continue
+                sub_pv = {}
+                for k, a in enumerate(n.get('args', [])):
+                    cv = f.const_value(a)
+                    if cv and cv[0] in ('bool', 'int'):
+                        sub_pv[k] = cv[1]
+                    elif cv and cv[0] == 'enum':
+                        sub_pv[k] = cv
+                sub = effect_sequences(prog, g, event_of, sub_pv, follow, depth + 1)
+                if len(sub) == 1:
+                    only = next(iter(sub))
+                    return st + only if only else None
+                return st + ('?',)
+        return None
+    exits, _ = explore(fn, (), transfer, lambda f, c, st: ev.ev(c, st), max_states=20000)
+    return set(exits)
+
+
 def describe_path(fn, path, limit=14):
     """human-readable witness: the branch decisions along the path"""
     out = []
